@@ -165,7 +165,8 @@ func init() {
 			/* a document that is not valid UTF-8 cannot travel in the op's own JSON text */
 			text, _ = hex.DecodeString(h)
 		}
-		if err := json.Unmarshal(text, &doc); err != nil {
+		/* as jtp.Get decodes a response: the first JSON value of the stream, into a map */
+		if err := json.NewDecoder(bytesReader(text)).Decode(&doc); err != nil {
 			return map[string]any{"baddoc": true}
 		}
 		op["tree"] = tree(doc)
@@ -400,6 +401,14 @@ var mediaTypePool = []string{
 	"téxt/html", "text/htmł", "text/html\u00e9", "\u00e9text/html", "text/html٣", "ｔｅｘｔ/html", "text\u2044html", "text\u2215html", "text∕html", "text\\html", "text%2Fhtml", "text/html\u200b", "\ufefftext/html",
 	"application/activity+json", "application/ld+json; profile=\"https://www.w3.org/ns/activitystreams\"", "image/svg+xml", "video/mp4", "audio/ogg; codecs=opus", "multipart/form-data; boundary=----x", "application/vnd.api+json", "application/x-www-form-urlencoded",
 	"text/html(comment)", "text/html\"", "\"text/html\"", "'text/html'", "<text/html>", "text/html>", "[text/html]", "{text/html}", "text/html}", "text/html@", "text/html:", "text/html=", "text/html?", "text/html,", ",text/html", "text,/html", "text/,html",
+}
+
+/* the media types GetMarkup has a renderer for, spelled in the ways the grammar lets through, and near misses */
+var renderablePool = []string{
+	"text/plain", "text/html", "text/gemini", "text/markdown", "text/plain", "text/html", "text/gemini", "text/markdown",
+	"text/plain; charset=utf-8", "text/html;charset=utf-8", "text/gemini; lang=en", "text/markdown; variant=GFM", "text/gemini\n", "text/markdown\ttext/html", "text/plain,text/html", "text/html text/gemini",
+	"\x1btext/gemini", "text/\x00markdown", "text\u009b/plain", "text/gemini\u0085",
+	"TEXT/GEMINI", "Text/Markdown", "text/Plain", "text/HTML", "text/x-markdown", "text/x-gemini", "text/markdownx", "text/gemini+xml", "text/gem", "text/htm", "application/gemini", "x/markdown",
 }
 
 /* characters Scrub removes, expands or must leave alone */
@@ -717,6 +726,10 @@ func genC17(r *rand.Rand, n int, emit func(Op)) {
 					v = spellJSON(r, genSuitedString(r, acc))
 				} else if k == "m" && acc == "markup" && r.Intn(4) != 0 {
 					v = spellJSON(r, genSuitedString(r, "mediatype"))
+					if r.Intn(3) != 0 {
+						/* one of the four that have a renderer, and their neighbours */
+						v = spellJSON(r, pick(r, renderablePool))
+					}
 				}
 				parts = append(parts, fmt.Sprintf("%q:%s", k, v))
 			}
